@@ -14,7 +14,9 @@ package main
 
 import (
 	"bytes"
+	"encoding/base64"
 	"errors"
+	"os"
 	"encoding/hex"
 	"encoding/json"
 	"fmt"
@@ -98,14 +100,24 @@ func setupMaterial(r *hx.Rng) {
 	filterer, err := contract.NewContractFilterer(ethcommon.Address{}, nil)
 	must(err)
 	parser = eventparser.New(filterer)
+	cached := loadRSACache()
 	for i := 0; i < nRSA; i++ {
-		k, err := keys.GeneratePrivateKey()
-		must(err)
+		var k keys.OperatorPrivateKey
+		if i < len(cached) {
+			k = cached[i]
+		} else {
+			var err error
+			k, err = keys.GeneratePrivateKey()
+			must(err)
+		}
 		rsaKeys = append(rsaKeys, k)
 		p, err := k.Public().Base64()
 		must(err)
 		rsaPub = append(rsaPub, p)
 		rsaPubID[string(p)] = i + 1
+	}
+	if len(cached) < nRSA {
+		storeRSACache()
 	}
 	for i := 0; i < nAddr; i++ {
 		var ad ethcommon.Address
@@ -140,6 +152,44 @@ func setupMaterial(r *hx.Rng) {
 	blobNoHex = b
 	junkPK = bytes.Repeat([]byte{0xff}, 48)
 	valID[string(junkPK)] = 99
+}
+
+// RSA key generation dominates start-up; the operator keys are kept next to the stats file between invocations
+// (they are test material; BLS keys, owners and everything derived from the seed are fresh every run).
+var rsaCachePath string
+
+func loadRSACache() []keys.OperatorPrivateKey {
+	if rsaCachePath == "" {
+		return nil
+	}
+	raw, err := os.ReadFile(rsaCachePath)
+	if err != nil {
+		return nil
+	}
+	var out []keys.OperatorPrivateKey
+	for _, line := range strings.Split(string(raw), "\n") {
+		if line == "" {
+			continue
+		}
+		k, err := keys.PrivateKeyFromString(line)
+		if err != nil {
+			return nil
+		}
+		out = append(out, k)
+	}
+	return out
+}
+
+func storeRSACache() {
+	if rsaCachePath == "" {
+		return
+	}
+	var sb strings.Builder
+	for _, k := range rsaKeys {
+		sb.WriteString(base64.StdEncoding.EncodeToString(k.Bytes()))
+		sb.WriteString("\n")
+	}
+	_ = os.WriteFile(rsaCachePath, []byte(sb.String()), 0o600)
 }
 
 func idOfAddr(a ethcommon.Address) int {
